@@ -44,7 +44,7 @@ CONSTANTS Mutexes,      \* mutex objects (strings)
           PCo,          \* parties that are coroutines (co_await lock(), try_lock, co_await release())
           PThrough,     \* parties that release as soon as they are granted (inside the grant)
           SlotOf,       \* party -> mutex -> slot object the ownership is stored into
-          Kinds,        \* party -> subset of {"try", "lock", "block"}
+          Kinds,        \* party -> subset of {"try", "lock", "ask", "block"}
           Uses,         \* party -> mutexes it works with
           Probes,       \* mutexes probed by `{ auto o = m.try_lock(); }`
           DetachFirst,  \* TRUE: ownership::release() as the code has it - detach the pointer, then unlock.  FALSE (NOT the
@@ -62,7 +62,7 @@ VARIABLES
     nxt,        \* per mutex, per party: awaiter::_next of the party's request on that mutex     (awaiter.h:142)
     queue,      \* per mutex: _queue, head of the owner-private FIFO                             (mutex.h:140)
     slot,       \* per slot object: mutex its ownership refers to | "none"
-    st,         \* per party, per mutex: "idle" | "wait" | "hold"
+    st,         \* per party, per mutex: "idle" | "asked" (await_ready() failed, not registered yet) | "wait" | "hold"
     waiting,    \* ghost, per mutex: parties waiting, in arrival order
     owner,      \* ghost, per mutex: party that was granted it and has not released | "none"
     got,        \* this step: grants <<party, mutex>> in the order they happened
@@ -161,6 +161,23 @@ Lock(p, m) ==
          THEN Set(Granted([Begin({m}) EXCEPT !.req[m] = "door"], p, m))
          ELSE Set([Begin({m}) EXCEPT !.nxt[m][p] = req[m], !.req[m] = p, !.st[p][m] = "wait", !.waiting[m] = Append(@, p)])
 
+(* the callback request as the TWO calls it is made of, with other calls of the same thread in between: await_ready() fails
+   on the held mutex (mutex.h:180-186) ... *)
+Ask(p, m) ==
+    /\ n < MaxOps /\ "ask" \in Kinds[p] /\ p \in PPlain /\ m \in Uses[p] /\ st[p][m] = "idle"
+    /\ req[m] # "null"
+    /\ Set([Begin({m}) EXCEPT !.st[p][m] = "asked"])
+
+(* ... and await_suspend(on_grant, ctx) / subscribe(&custom) registers.  When the owner has released in between, subscribe()
+   finds the stack empty: its CAS null -> awaiter succeeds with prev = nullptr, build_queue(aw) swaps the doorman in and it
+   returns false (mutex.h:196-206): the CALLER owns the mutex now and the callback is NOT called (awaiter.h:198-201) - the
+   request is granted exactly once, by the return value or by the callback, never by both *)
+Suspend(p, m) ==
+    /\ n < MaxOps /\ st[p][m] = "asked"
+    /\ IF req[m] = "null"
+         THEN Set(Granted([Begin({m}) EXCEPT !.req[m] = "door"], p, m))
+         ELSE Set([Begin({m}) EXCEPT !.nxt[m][p] = req[m], !.req[m] = p, !.st[p][m] = "wait", !.waiting[m] = Append(@, p)])
+
 (* blocking `ownership own(m.lock())` / `m.lock().wait()`: a single-threaded program may only block on a free mutex
    (awaiter.h:289-292, 304-311) *)
 Block(p, m) ==
@@ -184,7 +201,7 @@ Probe(m) ==
     /\ n < MaxOps /\ m \in Probes
     /\ Set([Begin({m}) EXCEPT !.res = IF req[m] = "null" THEN "true" ELSE "false"])
 
-Next == \/ \E p \in Parties, m \in Mutexes : Try(p, m) \/ Lock(p, m) \/ Block(p, m) \/ Release(p, m)
+Next == \/ \E p \in Parties, m \in Mutexes : Try(p, m) \/ Lock(p, m) \/ Ask(p, m) \/ Suspend(p, m) \/ Block(p, m) \/ Release(p, m)
         \/ \E m \in Mutexes : Probe(m)
 
 Spec == Init /\ [][Next]_vars
